@@ -257,6 +257,14 @@ func ruleEvRemap(w *World, r *Report) {
 		return out
 	}
 	resPhis, parPhis := lineage(m.resFinal), lineage(m.parFinal)
+	var resBaseMake ssa.Value
+	for p := range resPhis {
+		for _, e := range p.Edges {
+			if mk, ok := e.(*ssa.MakeSlice); ok {
+				resBaseMake = mk
+			}
+		}
+	}
 	if len(resPhis) == 0 || len(parPhis) == 0 {
 		r.Unresolved(rule, "the rebuilt arrays are not loop-carried appends")
 		return
@@ -332,6 +340,20 @@ func ruleEvRemap(w *World, r *Report) {
 		r.Unresolved(rule, "no appending path found")
 	}
 	// index tables: tbl[J] = len(R) - c
+	var allAppends []ssa.Value
+	EachInstr(fn, func(in ssa.Instruction) {
+		if c, ok := in.(*ssa.Call); ok {
+			if _, isApp := isAppendCall(c); isApp {
+				if b, _, okc := m.chain(c); okc {
+					if resPhis[phiOf(b)] {
+						allAppends = append(allAppends, c)
+					} else if _, isMk := b.(*ssa.MakeSlice); isMk && b == resBaseMake {
+						allAppends = append(allAppends, c)
+					}
+				}
+			}
+		}
+	})
 	var realTbl, eventTbl ssa.Value
 	type tstore struct {
 		st    *ssa.Store
@@ -356,13 +378,15 @@ func ruleEvRemap(w *World, r *Report) {
 		if sl, ok := ms.Type().Underlying().(*types.Slice); !ok || !isIntegerType(sl.Elem()) {
 			return
 		}
-		// value: len(R) - c
+		// value: len(X) + k, with X any state of the rebuilt node array (before or after an append of this step)
 		var R ssa.Value
 		leaf := func(v ssa.Value) string {
 			if c, ok := v.(*ssa.Call); ok {
 				if b, ok := c.Call.Value.(*ssa.Builtin); ok && b.Name() == "len" {
-					if _, isApp := isAppendCall(c.Call.Args[0]); isApp {
-						R = c.Call.Args[0]
+					arg := c.Call.Args[0]
+					_, isApp := isAppendCall(arg)
+					if isApp || resPhis[phiOf(arg)] {
+						R = arg
 						return "L"
 					}
 				}
@@ -370,19 +394,44 @@ func ruleEvRemap(w *World, r *Report) {
 			return ""
 		}
 		lf, okl := linearise(st.Val, leaf, 0)
-		if !okl || R == nil || lf.coef["L"] != 1 || len(lf.coef) != 1 || lf.k >= 0 {
+		if !okl || R == nil || lf.coef["L"] != 1 || len(lf.coef) != 1 {
 			return
 		}
-		_, elems, okc := m.chain(R)
+		baseX, seqX, okx := m.chain(R)
 		jf, okj := linearise(ia.Index, intAtoms, 0)
 		pos := w.InstrPos(st)
-		if !okc || !okj {
+		if !okx || !okj {
 			r.Undecided(rule, pos, name, "index table store "+describe(st.Val), "the appended elements or the table index could not be listed")
 			return
 		}
-		p := int64(len(elems)) + lf.k
+		p := int64(len(seqX)) + lf.k
 		if p < 0 {
 			r.Fail(rule, pos, name, fmt.Sprintf("tbl[%s] = len(..)%+d", jf.String(), lf.k), "the recorded position lies before the elements appended in this step")
+			return
+		}
+		// the element that ends up at offset p from the same base: the shortest later state of the array that
+		// extends X far enough
+		var elems []seqElem
+		for _, cand := range allAppends {
+			b2, s2, ok2 := m.chain(cand)
+			if !ok2 || b2 != baseX || int64(len(s2)) <= p || len(s2) < len(seqX) {
+				continue
+			}
+			prefix := true
+			for q := range seqX {
+				if s2[q] != seqX[q] {
+					prefix = false
+				}
+			}
+			if !prefix {
+				continue
+			}
+			if elems == nil || len(s2) < len(elems) {
+				elems = s2
+			}
+		}
+		if elems == nil {
+			r.Fail(rule, pos, name, fmt.Sprintf("tbl[%s] = len(..)%+d", jf.String(), lf.k), "the recorded position is never filled in this step")
 			return
 		}
 		el := elems[p]
